@@ -2009,6 +2009,22 @@ ZSTD_reset_matchState(ZSTD_matchState_t* ms,
     ms->hashLog3 = hashLog3;
     ms->lazySkipping = 0;
 
+#ifdef ZSTD_VERIF_SIM
+    /* "time jump" for the 32-bit match-finder index : when the indexes of a context continue into a new frame,
+     * advance them exactly as if more bytes had been consumed (and invalidated) before it.  Only states that a
+     * real history can reach : a context whose index is beyond CURRENT_MAX - 16 MB at frame start is reset. */
+    if ((forWho == ZSTD_resetTarget_CCtx) && (forceResetIndex != ZSTDirp_reset)) {
+        size_t const cur = (size_t)(ms->window.nextSrc - ms->window.base);
+        size_t const maxIdx = (size_t)ZSTD_CURRENT_MAX - ((size_t)16 << 20) - 4096;
+        size_t jump = ZSTD_verif_indexJump();
+        if (jump && cur < maxIdx) {
+            if (jump > maxIdx - cur) jump = maxIdx - cur;
+            ms->window.base -= jump;
+            ms->window.dictBase -= jump;
+            ZSTD_VERIF_PROBE(ZSTD_VP_indexJumped);
+        }
+    }
+#endif
     ZSTD_invalidateMatchState(ms);
 
     assert(!ZSTD_cwksp_reserve_failed(ws)); /* check that allocation hasn't already failed */
